@@ -1,1 +1,124 @@
-From PM Require Import Base Mask C11Model.
+(* Property C11 - pickling round-trips objects. Only statements closed by [exact], with
+   Print Assumptions. U = unbounded (every class, shape, rank, mask, value list, width).
+   The external compressors are not modelled: every theorem that needs them quantifies over a
+   [codec] and assumes exactly the two round trips
+     bz2:   decompress (compress b) = b            for byte strings b
+     fpzip: decompress (compress l) = l            for arrays l of 64-bit patterns (precision 64)
+   (validated on the real libraries in every run of the check, on that run's byte strings).
+   np.packbits/unpackbits, the byte layout of integers, the antimask selection, the refill
+   with the default and _find_corners are modelled concretely and proved. *)
+From Coq Require Import List ZArith Bool.
+From PM Require Import Base Mask C11Model C11Lemmas.
+Import ListNotations.
+
+(* U: packed bits come back (np.unpackbits(np.packbits(l))[:len(l)] == l), every length *)
+Theorem C11_packbits : forall l, firstn (length l) (unpackbits (packbits l)) = l.
+Proof. exact unpack_pack. Qed.
+
+(* U: _find_corners returns a box that contains every unmasked element, on every axis of a
+   mask of any rank ... *)
+Theorem C11_corners_contain : forall s m i a, inb s i = true -> m i = false -> a < length s ->
+  nth a (fst (find_corners s m)) 0 <= nth a i 0 < nth a (snd (find_corners s m)) 0.
+Proof. exact corners_bound. Qed.
+(* ... and the box is tight: when some element is unmasked, each of its 2*rank faces holds one *)
+Theorem C11_corners_tight : forall s m i0 a, inb s i0 = true -> m i0 = false -> a < length s ->
+  (exists i, inb s i = true /\ m i = false /\ nth a i 0 = nth a (fst (find_corners s m)) 0) /\
+  (exists i, inb s i = true /\ m i = false /\ S (nth a i 0) = nth a (snd (find_corners s m)) 0).
+Proof. exact corners_tight. Qed.
+(* U: crop to the corners and paste back into an all-True array: every mask of every shape *)
+Theorem C11_crop_uncrop : forall s (l : list bool), length l = size s ->
+  uncrop s (fst (find_corners s (mfun s l))) (snd (find_corners s (mfun s l)))
+         (sub_mi (snd (find_corners s (mfun s l))) (fst (find_corners s (mfun s l))))
+         (crop (mfun s l) (fst (find_corners s (mfun s l))) (snd (find_corners s (mfun s l)))) = l.
+Proof. exact uncrop_crop. Qed.
+
+(* U: the mask codec (corners when the box is smaller + packbits + bz2, decoded in reverse)
+   returns every mask array of every shape, incl. > 4 axes, masked borders, one unmasked
+   element, all masked *)
+Theorem C11_mask_codec : forall cd,
+  (forall b, Forall byte_ok b -> bz2d cd (bz2c cd b) = b) ->
+  forall s l, length l = size s ->
+  dec_mask cd s (fst (enc_mask cd s l)) (snd (enc_mask cd s l)) = DArr s l.
+Proof. exact mask_codec. Qed.
+
+(* U: integers of any byte width, signed or unsigned: decoding with the width that was
+   recorded at encoding returns the array *)
+Theorem C11_int_width : forall w sg (l : list Z), Forall (in_range w sg) l ->
+  map (dec_int w sg) (chunk w (length l) (concat (map (enc_int w) l))) = l.
+Proof. exact ints_roundtrip. Qed.
+(* R (the pinned tree decoded every array with width 8): five int32 values do not come back *)
+Theorem C11_int32_as_int64_refuted :
+  map (dec_int 8 true) (chunk 8 5 (concat (map (enc_int 4) [1; 2; 3; 4; 5]%Z))) <> [1; 2; 3; 4; 5]%Z.
+Proof. vm_compute. discriminate. Qed.
+
+(* U: unpickling a pickled object. For every well-formed object (any class tag, shape, item,
+   denominator, kind float / int of any width / bool, Python scalar or array values, mask
+   False / True / array, units tag, read-only flag, any list of derivatives) and every codec
+   with the two round trips: class, shape, numerator, denominator, kind, units, read-only flag
+   and derivative keys are equal; the mask is equal element by element; every unmasked value is
+   the same integer (= the same 64-bit pattern for floats, so -0.0, subnormals, infinities and NaN
+   payloads are covered); every masked element of an array-valued object is the default; each
+   derivative keeps class, shapes, units, is read-only iff it or its parent was, and its values
+   are the same wherever parent and derivative are unmasked. Both sides of the 200-value cutoff
+   and the literal fallback are inside [getstate] (no hypothesis on the size). *)
+Theorem C11_roundtrip_default : forall cd,
+  (forall b, Forall byte_ok b -> bz2d cd (bz2c cd b) = b) ->
+  (forall l, Forall pat_ok l -> fpzd cd (fpzc cd l) = l) ->
+  forall q, wf q -> roundtrip_ok q (setstate cd (getstate cd q)).
+Proof. exact roundtrip_default. Qed.
+
+(* U, by construction of the effect model: __getstate__ changes nothing of the pickled object
+   but its cache *)
+Theorem C11_pure : forall cd o,
+  py_q (fst (getstate_eff cd o)) = py_q o /\ py_attrs (fst (getstate_eff cd o)) = py_attrs o /\
+  snd (getstate_eff cd o) = getstate cd (py_q o).
+Proof. exact getstate_pure. Qed.
+
+(* ---- non-vacuity ---- *)
+(* the hypotheses on the codec are satisfiable (the executable model uses this instance) *)
+Example C11_ex_codec :
+  (forall b, Forall byte_ok b -> bz2d id_codec (bz2c id_codec b) = b) /\
+  (forall l, Forall pat_ok l -> fpzd id_codec (fpzc id_codec l) = l).
+Proof. exact id_codec_ok. Qed.
+
+(* a 3x4 Vector (items of 2) whose first row and first and last columns are masked, holding
+   -0.0, inf, a NaN with payload and a subnormal, with one derivative with a denominator *)
+Definition ex_mask : list bool :=
+  [true; true; true; true;  true; false; false; true;  true; false; true; true].
+Definition ex_core : q0 :=
+  mkq0 2 [3; 4] [2] [] KFloat false
+       (map (fun k => [(9223372036854775808 + k)%Z; 9218868437227405312%Z])
+            [0; 1; 2; 3; 4; 5; 6; 7; 8; 9; 10; 11]%Z)
+       (LA ex_mask) [4607182418800017408; 4607182418800017408]%Z 1 true true.
+Definition ex_deriv : q0 :=
+  mkq0 2 [3; 4] [2] [3] KFloat false
+       (map (fun k => [k; 9221120237041090561; 1; k; k; k]%Z) [0; 1; 2; 3; 4; 5; 6; 7; 8; 9; 10; 11]%Z)
+       (LA ex_mask) [0; 0; 0; 0; 0; 0]%Z 0 false true.
+Definition ex_q : qube := mkqube ex_core [(0, ex_deriv)].
+
+Example C11_ex_wf : wf ex_q.
+Proof.
+  unfold wf, wf0, ex_q, ex_core, ex_deriv, row_ok, val_ok, pat_ok; cbn.
+  repeat split; try discriminate;
+    repeat (constructor; try (cbn; repeat split; try reflexivity; try discriminate)).
+Qed.
+(* corner cropping really happens on it: the box is rows 1..2, columns 1..2 *)
+Example C11_ex_corners : find_corners [3; 4] (mfun [3; 4] ex_mask) = ([1; 1], [3; 3]).
+Proof. vm_compute. reflexivity. Qed.
+Example C11_ex_path :
+  pmenc (pcore (getstate id_codec ex_q)) = [MCorners [1; 1] [3; 3]; MBool [2; 2] 4] /\
+  map venc_tag (pvenc (pcore (getstate id_codec ex_q))) = [1; 2].
+Proof. vm_compute. split; reflexivity. Qed.
+(* an integer kind of width 2 satisfies the range hypothesis of C11_int_width *)
+Example C11_ex_int16 : Forall (in_range 2 true) [-32768; -1; 0; 32767]%Z.
+Proof. repeat (apply Forall_cons; [vm_compute; split; congruence|]). apply Forall_nil. Qed.
+
+Print Assumptions C11_packbits.
+Print Assumptions C11_corners_contain.
+Print Assumptions C11_corners_tight.
+Print Assumptions C11_crop_uncrop.
+Print Assumptions C11_mask_codec.
+Print Assumptions C11_int_width.
+Print Assumptions C11_int32_as_int64_refuted.
+Print Assumptions C11_roundtrip_default.
+Print Assumptions C11_pure.
